@@ -350,6 +350,14 @@ def probe_anywhere(ad, ex, problems, txt):
     read = flank + piece if front else piece + flank
     m = ad.match_to(read)
     want = (len(flank), len(read)) if front else (0, k)
+    # other error-free occurrences the flank happens to offer (adapter suffix at the 5' end, prefix at the 3' end, a full
+    # copy): if one of them is as long as the planted one, only "something error-free of that length is found" is asked
+    others = [L for L in range(1, len(seq) + 1)
+              if (read.startswith(seq[-L:]) and (0, L) != want) or (read.endswith(seq[:L]) and (len(read) - L, len(read)) != want)]
+    if seq in read or any(L >= k for L in others):
+        if m is None or m.errors != 0 or m.rstop - m.rstart < k:
+            problems.append(("behaviour", f"{txt}: with 'anywhere' {read!r} has error-free partial occurrences of at least {k} adapter bases at its ends, got {m}"))
+        return
     if m is None or m.errors != 0 or (m.rstart, m.rstop) != want:
         problems.append(("behaviour", f"{txt}: with 'anywhere' an error-free {'prefix' if front else 'suffix'} of {k} adapter bases at the "
                          f"{'3' if front else '5'}' end of {read!r} must be found at {want}, got {m}"))
@@ -368,6 +376,7 @@ def gen_and_check(ctx, rng):
     filetext = None
     spec = None
     path = None
+    relative_to = old_cwd = shown = None
     try:
         if mode < 0.5:
             d = gen_single(rng, typ)
@@ -492,9 +501,22 @@ def gen_and_check(ctx, rng):
                 lines.append(f">rec{k} some comment\n{d['text']}" + (";" + ";".join(d["ptxt"]) if d["ptxt"] else "") + "\n")
             filetext = "".join(lines)
             path = os.path.join(ctx.scratch, f"ad{rng.getrandbits(40)}.fa")
+            if rng.random() < 0.5:
+                # a relative name (what users type); the name is free: it may begin with the very letters of the notation
+                rel = rng.choice(["linkers.fasta", "illumina.fa", "fwd.fa", "e/adapters.fa", "file.fa", "lib/file.fa", "i.fa", "ee.fasta", "adapters.fasta",
+                                  "$x.fa", "^x.fa", "x$.fa"])
+                sub = os.path.join(ctx.scratch, f"cwd{rng.getrandbits(40)}")
+                os.makedirs(os.path.join(sub, os.path.dirname(rel)), exist_ok=True)
+                path = os.path.join(sub, rel)
+                relative_to = sub
+                ctx.count("file_given_by_relative_name")
             with open(path, "w") as fh:
                 fh.write(filetext)
-            spec = {"": "file:", "^": "^file:", "$": "file$:"}[anch] + path + (";" + ";".join(ftxt) if ftxt else "")
+            shown = path if relative_to is None else rel
+            spec = {"": "file:", "^": "^file:", "$": "file$:"}[anch] + shown + (";" + ";".join(ftxt) if ftxt else "")
+            if relative_to is not None:
+                old_cwd = os.getcwd()
+                os.chdir(relative_to)
             ctx.count("kind:file" + anch)
             if any(d.get("ptxt") for d in recs):
                 ctx.count("file_with_record_parameters" + anch)
@@ -545,11 +567,17 @@ def gen_and_check(ctx, rng):
     except Exception as e:
         problems.append(("rejected", f"valid specification {str(spec).replace(str(path), 'FILE')!r} (file content {filetext!r}) raised {type(e).__name__}: {e}"))
     finally:
+        if old_cwd is not None:
+            os.chdir(old_cwd)
         if path:
             try:
                 os.unlink(path)
             except OSError:
                 pass
+        if relative_to is not None:
+            shutil.rmtree(relative_to, ignore_errors=True)
+    if relative_to is not None:
+        path = shown
     key = (str(spec).replace(str(path), "FILE"), filetext, str(glob), typ)
     ctx.case(key)
     case = dict(spec=str(spec).replace(str(path), "FILE"), filetext=filetext, glob=glob, typ=typ)
